@@ -540,6 +540,26 @@ theorem context_fresh_every_call (imported : Exec) (cache : List (Int × Exec)) 
     cases cache.lookup now.threadId <;>
       simp [effectiveExec, lookupCtx, Gen.threadLookup, Gen.processLookup, ih]
 
+/-- the history model with the generated policies is the general one instantiated -/
+theorem runHistory_eq_with (imported : Exec) (cache : List (Int × Exec)) (history : List Exec) :
+    runHistory imported cache history = runHistoryWith Gen.threadLookup Gen.processLookup imported cache history := by
+  induction history generalizing cache with
+  | nil => rfl
+  | cons now rest ih =>
+    unfold runHistory runHistoryWith
+    cases cache.lookup now.threadId <;> simp [effectiveExec, effectiveExecWith, ih]
+
+/-- anything remembered per thread (or at import) is REFUTED by `os.fork()`: the child runs in the forking thread – same
+thread ident, same thread-locals, same module globals – but is another process; a record made there with a process kept
+from the thread's first call (or from import) carries the PARENT's pid -/
+theorem cache_across_fork_refuted :
+    let parent : Exec := ⟨7, "MainThread".toList, 100, "MainProcess".toList, 10, 0⟩
+    let child : Exec := ⟨7, "MainThread".toList, 101, "MainProcess".toList, 20, 0⟩
+    (runHistoryWith .perCall .cachedPerThread parent [] [parent, child]).map (Option.map (·.processId)) = [some 100, some 100] ∧
+    (runHistoryWith .perCall .atImport parent [] [parent, child]).map (Option.map (·.processId)) = [some 100, some 100] ∧
+    (runHistoryWith .perCall .perCall parent [] [parent, child]).map (Option.map (·.processId)) = [some 100, some 101] := by
+  decide
+
 /-- GENERATED obligation: `aware_now()` takes one reading of the clock and derives the tzinfo from that very reading
 through the cache-free `_get_tzinfo` -/
 theorem time_zone_looked_up_per_call : Gen.tzLookup = .perCall := by decide
